@@ -22,12 +22,67 @@ class Latin(concretise.Theme):
     strs = sorted(["0", "aé", "ab;è", "b\r\n", "baß", "c,"] + ["d%02d" % i for i in range(90)])
 
 
+def _edge_times():
+    from datetime import datetime, timedelta, timezone
+    U = timezone.utc
+    us = timedelta(microseconds=1)
+    base = [
+        datetime(1700, 1, 1, 0, 0, 0, 0, U), datetime(1883, 11, 18, 20, 0, 0, 0, U), datetime(1969, 12, 31, 23, 59, 59, 999999, U),
+        datetime(1970, 1, 1, 0, 0, 0, 0, U), datetime(1970, 1, 1, 0, 0, 0, 1, U),
+        datetime(2001, 9, 9, 1, 46, 39, 999999, U), datetime(2001, 9, 9, 1, 46, 40, 0, U),
+        # America/Los_Angeles: gap 2021-03-14 10:00Z, fold 2021-11-07 09:00Z (and the hour before)
+        datetime(2021, 3, 14, 9, 59, 59, 999999, U), datetime(2021, 3, 14, 10, 0, 0, 0, U), datetime(2021, 3, 14, 10, 30, 0, 0, U),
+        datetime(2021, 11, 7, 8, 30, 0, 0, U), datetime(2021, 11, 7, 9, 0, 0, 0, U), datetime(2021, 11, 7, 9, 30, 0, 0, U),
+        # Australia/Lord_Howe: 30-minute DST, 2021-04-03 15:00Z (fold) and 2021-10-02 15:30Z (gap)
+        datetime(2021, 4, 3, 14, 45, 0, 0, U), datetime(2021, 4, 3, 15, 15, 0, 0, U), datetime(2021, 10, 2, 15, 29, 59, 999999, U),
+        datetime(2021, 10, 2, 15, 30, 0, 0, U),
+        # Asia/Kathmandu (+05:45, and +05:30 before 1986)
+        datetime(1985, 12, 31, 18, 29, 59, 999999, U), datetime(1985, 12, 31, 18, 30, 0, 0, U),
+        datetime(2024, 2, 29, 23, 59, 59, 999999, U), datetime(2024, 3, 1, 0, 0, 0, 0, U),
+    ]
+    base = sorted(set(base))
+    t = base[-1]
+    out = list(base)
+    for i in range(75):
+        t = t + timedelta(hours=7, microseconds=i)
+        out.append(t)
+    return out
+
+
+class TimeEdge(concretise.Theme):
+    """Instants at adjacent microseconds, around DST gaps / folds of the test zones, at the
+    epoch and the early range end; inputs rendered in other UTC offsets or as naive local values."""
+    name = "time-edge"
+    times = _edge_times()
+    naive_inputs = True
+
+
+class TimeFar(concretise.Theme):
+    """Range ends (1700 .. 2239-12-31T23:59:59.999999) at adjacent microseconds."""
+    name = "time-far"
+    naive_inputs = True
+
+    @staticmethod
+    def _t():
+        from datetime import datetime, timedelta, timezone
+        U = timezone.utc
+        us = timedelta(microseconds=1)
+        end = datetime(2239, 12, 31, 23, 59, 59, 999999, U)
+        pts = [datetime(1700, 1, 1, 0, 0, 0, 0, U), datetime(1700, 1, 1, 0, 0, 0, 1, U), datetime(1900, 1, 1, 0, 0, 0, 0, U),
+               datetime(2038, 1, 19, 3, 14, 7, 999999, U), datetime(2038, 1, 19, 3, 14, 8, 0, U),
+               datetime(2106, 2, 7, 6, 28, 15, 999999, U), datetime(2106, 2, 7, 6, 28, 16, 0, U)]
+        pts += [end - (60 - i) * us for i in range(61)]
+        pts += [end - timedelta(days=400) + timedelta(hours=i) for i in range(30)]
+        return sorted(set(pts))
+    times = _t.__func__()
+
+
 _ALL = {}
 
 
 def get(name):
     if name not in _ALL:
-        t = {"plain": concretise.Theme, "csv-hostile": Hostile, "latin": Latin}[name]()
+        t = {"plain": concretise.Theme, "csv-hostile": Hostile, "latin": Latin, "time-edge": TimeEdge, "time-far": TimeFar}[name]()
         t.check()
         _ALL[name] = t
     return _ALL[name]
